@@ -65,7 +65,7 @@ def parse_hashes(s):
     return out
 
 
-def run_gather(scn):
+def run_gather(scn, qname="query1"):
     """scn: ['scn', scaled, nq, ab, name=hashes, ...] -> (csv text, rows)"""
     scaled = int(scn[1])
     nq = int(scn[2])
@@ -76,7 +76,7 @@ def run_gather(scn):
         q.add_many(hs)
     else:
         q.set_abundances(dict(zip(hs, ab)))
-    qs = SourmashSignature(q, name="query1", filename="query1.sig").to_frozen()
+    qs = SourmashSignature(q, name=qname, filename=qname + ".sig").to_frozen()
     sigs = []
     for i, spec in enumerate(scn[4:]):
         name, _, hl = spec.partition("=")
@@ -150,6 +150,7 @@ class Case:
         self.gather_rows = []
         self.order = None
         self.used = []
+        self.done = []          # earlier queries of a multi-query run: csv lines (header + selected rows)
 
     # ---- files ----
     def ranks(self):
@@ -173,15 +174,40 @@ class Case:
                 for ident, cells in self.tax:
                     w.writerow([ident] + cells + [""] * (ncol - len(cells)))
         g = os.path.join(self.tmp, "gather.csv")
+        with open(g, "w", newline="") as f:
+            f.write("".join(x + "\r\n" for x in self.current_lines()))
+        return t, g
+
+    def current_lines(self):
         lines = (self.gather_text or "").split("\r\n")
         if lines and lines[-1] == "":
             lines = lines[:-1]
         if lines:
             sel = [self.used[i] for i in self.order] if self.order is not None else list(self.used)
             lines = [lines[0]] + [lines[1 + i] for i in sel]
-        with open(g, "w", newline="") as f:
-            f.write("".join(x + "\r\n" for x in lines))
-        return t, g
+        return lines
+
+    def load_all(self):
+        """every query of a multi-query run, one gather CSV per query, as `tax metagenome -g a.csv b.csv` reads them"""
+        t, _ = self.write_files()
+        files = []
+        for i, lines in enumerate(self.done + [self.current_lines()]):
+            g = os.path.join(self.tmp, f"gather{i}.csv")
+            with open(g, "w", newline="") as f:
+                f.write("".join(x + "\r\n" for x in lines))
+            files.append(g)
+        lins = self.mode == "lin"
+        ictv = self.mode == "ictv"
+        tax = MultiLineageDB.load([t], keep_full_identifiers=self.kf, keep_identifier_versions=self.kv,
+                                  force=self.force, lins=lins, ictv=ictv)
+        if not tax:
+            raise ValueError("No gather results loaded: empty taxonomy")
+        res = tax_utils.check_and_load_gather_csvs(files, tax, force=False, fail_on_missing_taxonomy=self.fail,
+                                                   keep_full_identifiers=self.kf,
+                                                   keep_identifier_versions=self.kv, lins=lins, ictv=ictv)
+        for q in res:
+            q.build_summarized_result()
+        return res
 
     def load(self):
         t, g = self.write_files()
@@ -293,6 +319,12 @@ def do_x(case, w):
         q.build_summarized_result()
         hl, rows = q.make_cami_bioboxes()
         return "ok " + " ".join(f"{r[1]}|{enc(r[3].replace('|', ';'))}|{r[4]}" for r in rows)
+    if op == "xbioboxesw":
+        q.build_summarized_result()
+        hl, rows = q.make_cami_bioboxes()
+        fp = io.StringIO()
+        tax_utils.write_bioboxes(hl, rows, fp, sep="\t")
+        return f"ok lines={len(fp.getvalue().splitlines())}"
     if op == "xhuman":
         q.build_summarized_result()
         rank = case.rank_name(q, int(w[1]))
@@ -401,8 +433,38 @@ def step(case, w):
     if op == "t":
         case.tax.append((dec(a[0]), [dec(x) for x in a[1:]]))
         return "ok"
+    if op == "nextq":
+        if not hasattr(case, "N") or case.gather_text is None:
+            return "bad-op"
+        case.done.append(case.current_lines())
+        case.gather_text, case.gather_rows, case.order, case.used = None, [], None, []
+        del case.N
+        return "ok"
+    if op in ("mkrona", "mlsum", "mcsv"):
+        qs = case.load_all()
+        if op == "mcsv":
+            fp = io.StringIO()
+            # a query none of whose matches has a lineage has nothing to write (make_full_summary refuses it)
+            tax_utils.write_summary([q for q in qs if q.summarized_lineage_results], fp)
+            names = [q.query_name for q in qs]
+            out = []
+            for row in csv.DictReader(io.StringIO(fp.getvalue())):
+                r = list(qs[0].ranks).index(row["rank"])
+                out.append(f"{names.index(row['query_name'])}:{r}|{enc(row['lineage'])}|{canon(float(row['fraction']))}|"
+                           f"{canon(float(row['f_weighted_at_rank']))}|{row['bp_match_at_rank']}")
+            return "ok " + " ".join(out) if out else "ok"
+        rank = case.rank_name(qs[0], int(a[0]))
+        if op == "mkrona":
+            t = krona_table(qs, rank)
+        else:
+            lineageD, qnames = tax_utils.aggregate_by_lineage_at_rank(qs, rank, by_query=True)
+            fp = io.StringIO()
+            tax_utils.write_lineage_sample_frac(qnames, lineageD, fp, sep="\t")
+            rows = list(csv.reader(io.StringIO(fp.getvalue()), delimiter="\t"))
+            t = [enc(row[0]) + "|" + "|".join(canon(float(x)) for x in row[1:]) for row in rows[1:]]
+        return "ok " + " ".join(t) if t else "ok"
     if op == "scn":
-        case.gather_text, case.gather_rows = run_gather(w)
+        case.gather_text, case.gather_rows = run_gather(w, qname=f"query{len(case.done) + 1}")
         case.expected = qr_lines(case.gather_rows)
         case.used = []
         return "ok"
@@ -480,6 +542,42 @@ def step(case, w):
         c = q.classification_result
         return (f"ok {c.status} {list(q.ranks).index(c.rank)} {enc(c.lineage.display_lineage(null_as_unclassified=True))} "
                 f"{canon(c.fraction)} {canon(c.f_weighted_at_rank)} {c.bp_match_at_rank}")
+    if op == "kreport":
+        q = case.load()
+        q.build_summarized_result()
+        if not q.summarized_lineage_results:
+            return "ok"
+        header, rows = q.make_kreport_results()
+        fp = io.StringIO()
+        tax_utils.write_output(header, rows, fp, sep="\t", write_header=False)
+        out = []
+        for row in csv.reader(io.StringIO(fp.getvalue()), delimiter="\t"):
+            out.append("|".join([row[0], row[1], row[2], row[3], enc(row[5].strip())]))
+        return "ok " + " ".join(out) if out else "ok"
+    if op == "bioboxes":
+        if case.mode != "std":
+            return "bad-op"
+        q = case.load()
+        q.build_summarized_result()
+        if not q.summarized_lineage_results:
+            return "ok"
+        hl, rows = q.make_cami_bioboxes()
+        t = [f"{r[1]}|{enc(r[3].replace('|', ';'))}|{r[4]}" for r in rows]
+        return "ok " + " ".join(t) if t else "ok"
+    if op == "human":
+        q = case.load()
+        q.build_summarized_result()
+        if not q.summarized_lineage_results:
+            return "ok"
+        rank = case.rank_name(q, int(a[0]))
+        fp = io.StringIO()
+        tax_utils.write_human_summary([q], fp, rank)
+        out = []
+        for line in fp.getvalue().split("\n")[2:]:
+            f = line.split()
+            if f:
+                out.append(f"{enc(f[-1])}|{f[1].rstrip('%')}")
+        return "ok " + " ".join(out) if out else "ok"
     if op in ("fa", "fs", "fm"):
         return float_op(op, a) if len(a) == 4 else "bad-op"
     if op == "ident":
